@@ -31,7 +31,7 @@ PROPS = {
     "C14": pens.ALL + [round4.pen_current_point] + _generic(("pens/",)),
     "C15": codecs.ALL + [round4.tagid_pad, round4.tagid_discriminator] + _generic(("misc/psCharStrings.py", "ttLib/woff2.py", "ttLib/tables/TupleVariation.py", "ttLib/tables/otConverters.py", "ttLib/tables/ttProgram.py", "misc/fixedTools.py", "misc/eexec.py", "misc/sstruct.py")),
     "C16": determinism.ALL + [consistency.save_restore, round4.dict_alias, round4.conv_sorted] + _generic(("ttLib/", "misc/timeTools.py")),
-    "C17": exhaust.ALL_C17 + _generic(("ttLib/reorderGlyphs.py", "ttLib/scaleUpem.py")),
+    "C17": exhaust.ALL_C17 + [round4.reorder_null_guard, round4.reorder_gid_structs] + _generic(("ttLib/reorderGlyphs.py", "ttLib/scaleUpem.py")),
     "C18": merge.ALL + [_scoped(determinism.f12_set_order, scope=("merge/",), rule="F12-merge")] + _generic(("merge/",)),
     "C19": design.C19 + [round4.kerning_sides, round4.uniq_pool, _scoped(consistency.clones, prop="C19")] + _generic(("designspaceLib/", "ufoLib/")),
     "C20": safety.ALL + [round4.broad_handler, round4.head_patch_guard] + _generic(("ttLib/ttFont.py", "ttLib/sfnt.py", "ttLib/ttCollection.py", "misc/xmlReader.py", "ttx.py", "misc/macRes.py", "t1Lib/")),
